@@ -10,3 +10,5 @@ import IOptProps.C02
 import IOptProps.C06
 import IOptProps.C04
 import IOptProps.C16
+import IOptProps.C01
+import IOptProps.C08holder
